@@ -1666,3 +1666,20 @@ package twig
 // is not sandboxed (C06: however the sandboxed template reaches a filter or function).
 //@ func DebugRender props: C06
 //@   requires[C06] !ctx.sandboxed
+
+// ---------------------------------------------------------------- code of the application (C05)
+// a method of a context value and the String method of a printed value run under a recover (the
+// usercall family demands it); what they yield when nothing panics is what the direct call yields
+// (the deferred closures change the results only when recover finds a panic; in the executions that are
+// modelled nothing panics, so they change nothing - checked against their bodies)
+//@ func callMethod$1 props: C05
+//@   modifies nothing
+//@ func stringerText$1 props: C05
+//@   modifies nothing
+//@ func callMethod props: C05
+//@   requires ufi_kind(method) == 19
+//@   ensures ret1 == nil ==> (forall k int :: 0 <= k && k < len(ret0) ==> ufi_kind(ret0[k]) != 0 && uf_canIface(ret0[k]))
+//@ func stringerText props: C05 C20 C07 C03
+//@   modifies nothing
+//@   requires[C05] !(ufi_ikind(s) == 22 && uf_inil(s))
+//@   ensures[C20,C07,C03,C05] ret == ufs_stringOf(s)
